@@ -4,6 +4,7 @@
 mod fam_constr;
 mod fam_feat;
 mod fam_geom;
+mod fam_kf;
 mod fam_nms;
 mod fam_store;
 mod fam_trk;
@@ -38,6 +39,7 @@ fn exec(ctx: &mut Ctx, line: &str) -> String {
         "track" => fam_store::exec_track(ctx, &mut t),
         "store" => fam_store::exec_store(ctx, &mut t),
         "trk" => fam_trk::exec(ctx, &mut t),
+        "kf" => fam_kf::exec(ctx, &mut t),
         "geom" => fam_geom::exec_geom(ctx, &mut t),
         _ => format!("UNKNOWN-FAMILY {fam}"),
     }
